@@ -1004,22 +1004,66 @@ func main() {
 	var reqs []string
 	var impls []string
 	var classes []string
-	add := func(req, impl, class string) {
+	var uniq []bool // known to be distinct by construction (exhaustive enumeration): counted without the set
+	nSeen := 0
+	// flush: evaluate the accumulated requests in the model and compare (correspondence)
+	flush := func() {
+		if dump := os.Getenv("C05_DUMP"); dump != "" {
+			f, _ := os.OpenFile(dump, os.O_APPEND|os.O_CREATE|os.O_WRONLY, 0o644)
+			f.WriteString(strings.Join(reqs, "\n") + "\n")
+			f.Close()
+		}
+		model, err := modelEvalParallel(o.ModelRun, reqs, 6)
+		if err != nil {
+			rep.HarnessError("%v", err)
+		}
+		for i := range reqs {
+			rep.CorrEvals++
+			nSeen++
+			if uniq[i] {
+				rep.CorrDistinct++
+			} else if !strings.HasSuffix(reqs[i], " -") || strings.HasPrefix(reqs[i], "str ") {
+				rep.Distinct(reqs[i])
+			}
+			if nSeen%9973 == 0 {
+				rep.Sample(map[string]string{"request": reqs[i], "impl": impls[i]})
+			}
+			if model == nil {
+				continue
+			}
+			switch {
+			case model[i] == "unmod":
+				rep.Unmodelled++
+				rep.Count("unmodelled:" + classes[i])
+			case model[i] != impls[i]:
+				rep.Mismatch(hx.Mismatch{Class: classes[i], Input: reqs[i], Impl: impls[i], Model: model[i]})
+			}
+		}
+		reqs, impls, classes, uniq = reqs[:0], impls[:0], classes[:0], uniq[:0]
+	}
+	addU := func(req, impl, class string, u bool) {
 		reqs = append(reqs, req)
 		impls = append(impls, impl)
 		classes = append(classes, class)
+		uniq = append(uniq, u)
+		if len(reqs) >= 300000 {
+			flush()
+		}
 	}
+	add := func(req, impl, class string) { addU(req, impl, class, false) }
 
 	// ---- part 1: texts through the two hooks
 	seenText := map[string]bool{}
 	doText := func(s string, shape string) {
-		if seenText[s] {
-			return
+		if shape != "exhaustive" {
+			if seenText[s] {
+				return
+			}
+			seenText[s] = true
 		}
-		seenText[s] = true
 		rep.Count("text:" + shape)
-		add("pf "+hx.HexS(s), implPF(s), "parseFloat")
-		add("pfp "+hx.HexS(s), implPFP(s), "parseFloatPrefix")
+		addU("pf "+hx.HexS(s), implPF(s), "parseFloat", shape == "exhaustive" && s != "")
+		addU("pfp "+hx.HexS(s), implPFP(s), "parseFloatPrefix", shape == "exhaustive" && s != "")
 		rep.SearchEvals++
 		if class, oracle, want, got, failed := checkHooks(s); failed {
 			rep.Fail(hx.Failure{Class: class, Oracle: oracle, Detail: failDetail("hook", map[string]any{
@@ -1178,33 +1222,7 @@ func main() {
 		}
 	}
 
-	// ---- correspondence
-	if dump := os.Getenv("C05_DUMP"); dump != "" {
-		os.WriteFile(dump, []byte(strings.Join(reqs, "\n")+"\n"), 0o644)
-	}
-	model, err := modelEvalParallel(o.ModelRun, reqs, 6)
-	if err != nil {
-		rep.HarnessError("%v", err)
-	}
-	for i := range reqs {
-		rep.CorrEvals++
-		if !strings.HasSuffix(reqs[i], " -") || strings.HasPrefix(reqs[i], "str ") {
-			rep.Distinct(reqs[i])
-		}
-		if i%9973 == 0 {
-			rep.Sample(map[string]string{"request": reqs[i], "impl": impls[i]})
-		}
-		if model == nil {
-			continue
-		}
-		switch {
-		case model[i] == "unmod":
-			rep.Unmodelled++
-			rep.Count("unmodelled:" + classes[i])
-		case model[i] != impls[i]:
-			rep.Mismatch(hx.Mismatch{Class: classes[i], Input: reqs[i], Impl: impls[i], Model: model[i]})
-		}
-	}
+	flush()
 	rep.Write(o.Out)
 }
 
